@@ -208,7 +208,9 @@ def run_check(check, tier="quick", seed=0, workers=None, replay=None, log=sys.st
     for (kind, detail), models_ in by_key.items():
         tried = 0
         if hasattr(check, "rank"): models_.sort(key=check.rank)
-        for model in models_[:3]:
+        budget, settled = 3, False
+        for model in models_[:12]:
+            if budget <= 0: break
             case = check.case(kind, detail, model)
             if case is None: continue
             n_cases += 1
@@ -217,12 +219,17 @@ def run_check(check, tier="quick", seed=0, workers=None, replay=None, log=sys.st
                 outside_cases[role] += 1
                 continue
             tried += 1
+            budget -= 1
             if ok:
-                if (pid, role) in known_roles: known_hit[role] = (text, case)
-                elif role not in confirmed: confirmed[role] = (text, case)
+                settled = True
+                if (pid, role) in known_roles:
+                    # a listed finding must not hide a different violation with the same obligation label: look at further models
+                    known_hit[role] = (text, case)
+                    budget += 1
+                    continue
+                if role not in confirmed: confirmed[role] = (text, case)
                 break
-        else:
-            if tried: unconfirmed.append((kind, detail, models_[0]))
+        if tried and not settled: unconfirmed.append((kind, detail, models_[0]))
     # ---- translator validation on sampled paths
     validated, disagreements = 0, []
     k_val = {"quick": 12, "thorough": 64}[tier]
